@@ -47,6 +47,7 @@ structure Rule where
   name : String
   kinds : List (List Seg)                   -- KindMatch, each entry split at "."
   scope : List (List Seg)                   -- ScopeMatch, each entry split at "."
+  scopeNil : Bool := false                  -- ScopeMatch == nil (AddRule refuses the rule)
   state : Option (List (String × Pat))      -- StateMatch (none = nil map)
   prio : Int
   suppress : List String
@@ -251,7 +252,7 @@ def addRuleIdx (idx : Idx) (r : Rule) : Idx := r.kinds.foldl (fun i k => addAt r
 /-- `ruleIndexRoot.AddRule`; the flag is "an error was returned" -/
 def Root.addRule (rt : Root) (r : Rule) : Root × Bool :=
   if r.name ∈ rt.names then (rt, true)
-  else if r.kinds = [] then ({ rt with names := r.name :: rt.names }, true)
+  else if r.kinds = [] ∨ r.scopeNil = true then ({ rt with names := r.name :: rt.names }, true)
   else ({ idx := addRuleIdx rt.idx r, names := r.name :: rt.names, indexed := rt.indexed ++ [r] }, false)
 
 def buildIdx (rules : List Rule) : Idx := rules.foldl addRuleIdx (.kind [] [])
@@ -350,6 +351,37 @@ def Proc.addEvent (rx : Nat → Val → Bool) (p : Proc) (sc : Scope) (ev : Even
 def Proc.after (rx : Nat → Val → Bool) (sc : Scope) (p : Proc) (hist : List Event) : Proc :=
   hist.foldl (fun p ev => (p.addEvent rx sc ev).2) p
 
+/-- `eventProcessor.AddRule` (processor stopped): the trigger cache is dropped, then the index decides -/
+def Proc.addRule (p : Proc) (r : Rule) : Proc × Bool :=
+  ({ root := (p.root.addRule r).1, cache := [] }, (p.root.addRule r).2)
+
+/-- `eventProcessor.Reset` -/
+def Proc.reset (_p : Proc) : Proc := { root := {}, cache := [] }
+
+/-- one step of a processor's life: between events the processor may be finished, get rules, be reset
+    and started again; every event comes with the scope of its cascade -/
+inductive Op where
+  | addRule (r : Rule)
+  | addEvent (sc : Scope) (ev : Event)
+  | reset
+
+def Proc.step (rx : Nat → Val → Bool) (p : Proc) : Op → Proc
+  | .addRule r => (p.addRule r).1
+  | .addEvent sc ev => (p.addEvent rx sc ev).2
+  | .reset => p.reset
+
+def Proc.run (rx : Nat → Val → Bool) (p : Proc) (ops : List Op) : Proc := ops.foldl (Proc.step rx) p
+
+/-- the rules handed to `AddRule` since the last `Reset` -/
+def Op.rules (ops : List Op) : List Rule :=
+  ops.foldl (fun acc op => match op with | .addRule r => acc ++ [r] | .addEvent _ _ => acc | .reset => []) []
+
+/-- the execution loop of `ProcessEvent`: the rules whose action is called, given which actions
+    return an error and the flag `failOnFirstError` -/
+def runRules (failFirst : Bool) (fails : Rule → Bool) : List Rule → List Rule
+  | [] => []
+  | r :: rest => if failFirst && fails r then [r] else r :: runRules failFirst fails rest
+
 /-- what Go guarantees about a rule: `strings.Split` never returns an empty slice, and the keys of
     the `StateMatch` map are distinct -/
 def Rule.WF (r : Rule) : Prop := (∀ p ∈ r.kinds, p ≠ []) ∧ ((r.state.getD []).map (·.1)).Nodup
@@ -401,6 +433,15 @@ def firesList (rx : Nat → Val → Bool) (rules : List Rule) (allowed : List Se
   let trig := rules.filter (triggers rx allowed ev)
   let supp := trig.flatMap (·.suppress)
   (trig.map (·.name)).filter (· ∉ supp)
+
+/-- the rules of a list that `AddRule` accepts one after the other: the name is new (any earlier
+    rule of that name — accepted or refused — blocks it) and kind match and scope match are there -/
+def accepted : List Rule → List String → List Rule
+  | [], _ => []
+  | r :: rest, seen =>
+    if r.name ∈ seen then accepted rest seen
+    else if r.kinds = [] ∨ r.scopeNil = true then accepted rest (r.name :: seen)
+    else r :: accepted rest (r.name :: seen)
 
 /-- flag of the longest prefix of the path on which `d` is defined -/
 def longest (d : List Seg → Option Bool) : List Seg → Option Bool
